@@ -435,6 +435,25 @@ def unit_gabor(prop):
     return unit
 
 
+def unit_gamma_prefix(prop):
+    def unit(tier, known):
+        from contracts import filters_gabor as C
+
+        def tc(ob):
+            cs = C.to_case_c05(ob) or []
+            out = []
+            for c in cs:
+                c2 = dict(c)
+                if isinstance(c2.get("bank"), dict) and c2["bank"].get("bank") == "gabor":
+                    c2["bank"] = dict(c2["bank"], bank="gamma", order=4, max_centered=False)
+                out.append(c2)
+            return out
+        jobs = [("contracts.filters_gabor", "generate_gamma", (prop, label)) for label in C.LABELS]
+        return run_parallel("gamma_init_prefix", jobs, to_case=tc, replay_module="rtc.c05")
+    unit.__name__ = "gamma_init_prefix"
+    return unit
+
+
 def unit_stack(prop):
     def unit(tier, known):
         from contracts import post_stack as C
@@ -456,7 +475,7 @@ UNITS = {
     "C18": [unit_pre("C18", "preemph"), unit_pre("C18", "dither"), _lazy("contracts.purity", "unit_purity", "C18")],
     "C12": [unit_copy_samples("C12"), _lazy("contracts.sphere", "unit_g711", "C12"), unit_header_validation("C12")],
     "C20": [unit_circshift("C20"), _lazy("contracts.util_misc", "unit_angular", "C20"), unit_windows("C20"), _lazy("contracts.purity", "unit_purity", "C20")],
-    "C05": [unit_tri("C05", "init"), unit_tri("C05", "truncated"), unit_fbank("C05", "init"), unit_fbank("C05", "truncated"), unit_gabor("C05"), _lazy("contracts.purity", "unit_purity", "C05")],
+    "C05": [unit_tri("C05", "init"), unit_tri("C05", "truncated"), unit_fbank("C05", "init"), unit_fbank("C05", "truncated"), unit_gabor("C05"), unit_gamma_prefix("C05"), _lazy("contracts.purity", "unit_purity", "C05")],
     "C06": [unit_tri("C06", "truncated"), unit_tri("C06", "init"), unit_fbank("C06", "truncated"), unit_fbank("C06", "init"), _lazy("contracts.purity", "unit_purity", "C06")],
     "C14": [unit_torch_stft("C14"), unit_torch_wrappers("C14"), _lazy("contracts.torch_wrappers", "unit_from_stft", "C14")],
     "C09": [unit_torch_stft("C09")] + [_lazy_list("contracts.cli", "units", "C09", k) for k in range(2)],
